@@ -7,7 +7,7 @@ Prints one line per property: DETECTED (exit 1 + VIOLATION line) / MISSED (exit 
 The patch is always reverted (git -C /repo checkout -- .), also on interruption.
 """
 import os, subprocess, sys, time
-REPO = "/repo"
+REPO = os.environ.get("VERIF_REPO", "/repo")
 VERIF = os.path.dirname(os.path.dirname(os.path.abspath(__file__)))
 
 def main():
